@@ -286,7 +286,12 @@ package client
 //@ ensures result <==> len(r.fileFields) > 0 || mediaType == "multipart/form-data"
 //@ assigns \nothing
 
+// escapeQuotes: one pass that turns \ into \\ and " into \" (a single strings.Replacer with exactly these pairs:
+// chained replacements would escape the escapes)
 //@ func escapeQuotes
+//@ watch NR = call strings.NewReplacer
+//@ watch RP = call (*strings.Replacer).Replace
+//@ ensures [C11:escape] calls(NR) == 1 && len(arg(NR,0,0)) == 4 && argv(NR,0,0,0) == "\\" && argv(NR,0,0,1) == "\\\\" && argv(NR,0,0,2) == "\"" && argv(NR,0,0,3) == "\\\"" && calls(RP) == 1 && arg(RP,0,0) == ret(NR,0,0) && arg(RP,0,1) == s && result == ret(RP,0,0)
 //@ assigns \nothing
 
 //@ func logClose
